@@ -8,7 +8,8 @@ ASSUMPTIONS = _bc.ASSUMPTIONS + [
     "the whole-broker runs check the composition on sampled schedules",
 ]
 
-CLAUSES = {"c15_in_order", "c15_release_intact", "c15_resend_order", "c15_dequeue_order", "c15_resend_first"}
+CLAUSES = {"c15_in_order", "c15_release_intact", "c15_resend_order", "c15_dequeue_order", "c15_resend_first",
+           "c15_forward_link", "c15_arrival_link"}  # the last two: Broker/EndToEnd.v, hypotheses of C15_e2e_order_clauses
 
 
 def run(ck):
